@@ -7,10 +7,12 @@ use samlang_ast::{
   mir::{Binary, Expression, INT_32_TYPE, Statement, ZERO},
 };
 
+// All arithmetic on guard values is done in i64: differences, negations and `guard +- 1` of two
+// i32 values do not fit into i32 near INT_MIN / INT_MAX.
 fn analyze_number_of_iterations_to_break_less_than_guard(
-  initial_guard_value: i32,
-  guard_increment_amount: i32,
-  guarded_value: i32,
+  initial_guard_value: i64,
+  guard_increment_amount: i64,
+  guarded_value: i64,
 ) -> Option<i32> {
   // Condition is already satisfied, so it does not loop.
   if initial_guard_value >= guarded_value {
@@ -23,8 +25,8 @@ fn analyze_number_of_iterations_to_break_less_than_guard(
   }
   let difference = guarded_value - initial_guard_value;
   let count =
-    difference / guard_increment_amount + ((difference % guard_increment_amount != 0) as i32);
-  Some(count)
+    difference / guard_increment_amount + ((difference % guard_increment_amount != 0) as i64);
+  i32::try_from(count).ok()
 }
 
 fn analyze_number_of_iterations_to_break_guard(
@@ -33,6 +35,8 @@ fn analyze_number_of_iterations_to_break_guard(
   operator: GuardOperator,
   guarded_value: i32,
 ) -> Option<i32> {
+  let (initial_guard_value, guard_increment_amount, guarded_value) =
+    (i64::from(initial_guard_value), i64::from(guard_increment_amount), i64::from(guarded_value));
   match operator {
     GuardOperator::LT => analyze_number_of_iterations_to_break_less_than_guard(
       initial_guard_value,
@@ -87,8 +91,12 @@ pub(super) fn optimize(
     if let Expression::Variable(v) = e {
       if v.name.eq(basic_induction_variable_with_loop_guard_name) {
         // We simply want the final value of the basic_induction_variable_with_loop_guard_name.
-        let basic_induction_variable_with_loop_guard_final_value =
-          *initial_guard_value + *guard_increment_amount * num_of_loop_iterations;
+        // Give up when the counter itself would leave the i32 range before the guard fails.
+        let basic_induction_variable_with_loop_guard_final_value = i32::try_from(
+          i64::from(*initial_guard_value)
+            + i64::from(*guard_increment_amount) * i64::from(num_of_loop_iterations),
+        )
+        .ok()?;
         return Some(vec![Statement::Binary(Binary {
           name: *n,
           operator: BinaryOperator::PLUS,
